@@ -92,7 +92,13 @@ def build_sets(case):
             rows = 2 * b
         pgen = jinns.data.DataGeneratorParameter(k2, 2 * rows + 1, rows, {"a": (0.5, 1.5)}) if form in ("param", "both") else None
         r = np.arange(2 * rows + 1, dtype=float)
-        ogen = jinns.data.DataGeneratorObservations(k3, rows, jnp.asarray(r[:, None] / 7), jnp.asarray(np.cos(r)[:, None])) if form in ("obs", "both") else None
+        ogen = None
+        if form in ("obs", "both"):
+            if kind.startswith("sys"):
+                # the multi-network loader (one aligned loader per unknown) is what system losses are trained with
+                ogen = jinns.data.DataGeneratorObservationsMultiPINNs(rows, {"u": jnp.asarray(r[:, None] / 7)}, {"u": jnp.asarray(np.cos(r)[:, None])}, key=k3)
+            else:
+                ogen = jinns.data.DataGeneratorObservations(k3, rows, jnp.asarray(r[:, None] / 7), jnp.asarray(np.cos(r)[:, None]))
         # independent expectation of the returned terms (per-sample NumPy formula of C12) for this argument set
         P2 = dict(P, coef=P["coef"] * scale + (0.03 if scale != 1.0 else 0.0))
         off = 0.03 if scale != 1.0 else 0.0
